@@ -26,13 +26,9 @@ theorem lookupComparator_star : lookupComparator ['*'] = some none := by decide
 /-- (a) every registry entry's class has that scheme name -/
 theorem registry_sound : RegistrySound := by decide
 
-/-- (a) completeness outside the known defect -/
-theorem registry_complete_partial : RegistryComplete knownUnregistered := by decide
-
-/-- (a) DEFECT of the code: `AlpineLinuxVersionRange` (scheme `alpine`) is not registered in
-`RANGE_CLASS_BY_SCHEMES`, so `vers:alpine/…` is rejected as an unknown scheme.  The full
-statement `registry_complete : RegistryComplete []` is in `VersRegistryComplete.lean`. -/
-theorem registry_complete_counterexample : ¬ RegistryComplete [] := by decide
+/-- (a) every range class that declares a scheme is registered under it (FIXED CODE, fix:
+`alpine` registered) -/
+theorem registry_complete : RegistryComplete := by decide
 
 /-- every registered range class has a version class: the `NoVersionClass` branch of
 `headerCore` is dead -/
@@ -178,14 +174,22 @@ theorem spelling_props {mk : List Char → Except TErr (List Char)} {c : TCon} {
 
 theorem conLoop_spelled {mk : List Char → Except TErr (List Char)} {items : List TCon}
     {texts : List (List Char)} (hs : Spelled items texts) (hok : ∀ c ∈ items, ConOk mk c)
+    (hns : items.all (fun c => !c.isStar) = true)
     (ha : ∀ t ∈ texts, isAsciiRepr t = true) : conLoop mk texts = .ok items := by
   induction hs with
   | nil => rfl
-  | cons h1 _ ih =>
+  | @cons c t cs ts h1 _ ih =>
+    have hc : c.isStar = false := by
+      have := (List.all_eq_true.mp hns) c List.mem_cons_self
+      simpa using this
+    have hns' : cs.all (fun c => !c.isStar) = true := by
+      rw [List.all_eq_true] at hns ⊢
+      exact fun d hd => hns d (List.mem_cons_of_mem _ hd)
     simp only [conLoop,
-      conFromString_spelling h1 (hok _ List.mem_cons_self) (ha _ List.mem_cons_self),
-      ih (fun c hc => hok c (List.mem_cons_of_mem _ hc))
+      conFromString_spelling h1 (hok _ List.mem_cons_self) (ha _ List.mem_cons_self), hc,
+      ih (fun c hc => hok c (List.mem_cons_of_mem _ hc)) hns'
          (fun t ht => ha t (List.mem_cons_of_mem _ ht))]
+    rfl
 
 theorem spelled_props {mk : List Char → Except TErr (List Char)} {items : List TCon}
     {texts : List (List Char)} (hs : Spelled items texts) (hok : ∀ c ∈ items, ConOk mk c) :
@@ -227,15 +231,15 @@ theorem join_noSpace {texts : List (List Char)}
     subst this; decide
   · exact (List.all_eq_true.mp (h p hp)) c hcp
 
-/-- the text `|…|t1|t2|…|tn|…|` that does not start with the star is cut into `t1 … tn` -/
-theorem constraintTexts_body {texts : List (List Char)} (n m : Nat) (hne : texts ≠ [])
+/-- the text `|…|t1|t2|…|tn|…|` whose first item does not start with the star is cut into
+`t1 … tn` -/
+theorem constraintBody_texts {texts : List (List Char)} (n m : Nat) (hne : texts ≠ [])
     (h : ∀ t ∈ texts, t ≠ [] ∧ '|' ∉ t ∧ t.all (fun c => !isSpace c) = true)
-    (hstar : startsWith (bars n ++ join ['|'] texts ++ bars m) ['*'] = false) :
-    constraintTexts (bars n ++ join ['|'] texts ++ bars m) = .ok texts := by
+    (hstar : startsWith (join ['|'] texts) ['*'] = false) :
+    constraintBody (bars n ++ join ['|'] texts ++ bars m) = .ok (.texts texts) := by
   have hns : (bars n ++ join ['|'] texts ++ bars m).all (fun c => !isSpace c) = true := by
     rw [List.all_append, List.all_append, bars_noSpace, bars_noSpace,
       join_noSpace (fun t ht => (h t ht).2.2)]; rfl
-  -- the joined text starts and ends with a character that is not a bar
   obtain ⟨t1, ts, rfl⟩ := List.exists_cons_of_ne_nil hne
   obtain ⟨x, xs, hx⟩ := List.exists_cons_of_ne_nil (h t1 List.mem_cons_self).1
   have hxbar : x ≠ '|' := by
@@ -251,12 +255,20 @@ theorem constraintTexts_body {texts : List (List Char)} (n m : Nat) (hne : texts
       rw [this]; simpa using hxbar
     · have : (join ['|'] (t1 :: ts)).getLast hJne = y := by simp [hlast]
       rw [this]; simpa using hybar
-  have hnil : (bars n ++ join ['|'] (t1 :: ts) ++ bars m).isEmpty = false := by
-    rw [hx, hrest]; cases n <;> simp [bars, List.replicate]
-  unfold constraintTexts
-  simp only [removeSpaces_of_noSpace hns, hnil, hstar, Bool.false_eq_true, ↓reduceIte]
-  rw [stripSet_pad _ (bars_contains n) (bars_contains m), hstrip,
+  have hnil : (join ['|'] (t1 :: ts)).isEmpty = false := by rw [hx, hrest]; rfl
+  unfold constraintBody
+  simp only [removeSpaces_of_noSpace hns, stripSet_pad _ (bars_contains n) (bars_contains m),
+    hstrip, hnil, hstar, Bool.false_eq_true, ↓reduceIte,
     splitChar_join hne (fun t ht => (h t ht).2.1)]
+
+/-- the lone star with stray bars -/
+theorem constraintBody_star (n m : Nat) :
+    constraintBody (bars n ++ ['*'] ++ bars m) = .ok .star := by
+  have hns : (bars n ++ ['*'] ++ bars m).all (fun c => !isSpace c) = true := by
+    rw [List.all_append, List.all_append, bars_noSpace, bars_noSpace]; rfl
+  unfold constraintBody
+  simp only [removeSpaces_of_noSpace hns, stripSet_pad _ (bars_contains n) (bars_contains m)]
+  rfl
 
 /-! ### the header -/
 
@@ -309,16 +321,6 @@ theorem spelled_star {texts : List (List Char)} (h : Spelled [.star] texts) :
   cases h with
   | cons h1 h2 => cases h1; cases h2; rfl
 
-theorem mixedStar_of_starAlone {items : List TCon} (h : StarAlone items) :
-    mixedStar items = false := by
-  rcases h with h | h
-  · subst h; rfl
-  · have : items.any Con.isStar = false := by
-      rw [List.any_eq_false]; intro c hc
-      have := (List.all_eq_true.mp h) c hc
-      simpa using this
-    simp [mixedStar, this]
-
 theorem registered_plain {scheme : List Char} {vc : String} (h : Registered scheme vc) :
     lower scheme = scheme ∧ scheme.all (fun c => !isSpace c && c != ':' && c != '/' &&
       reprPlain c && c != '\'' && c != '"') = true := by
@@ -331,23 +333,22 @@ theorem registered_noSlash {scheme : List Char} {vc : String} (h : Registered sc
   have := (List.all_eq_true.mp (registered_plain h).2) _ hm
   simp at this
 
-/-- the body of a spelling is cut into the texts of the items -/
-theorem constraintTexts_spelled {mk : List Char → Except TErr (List Char)} {items : List TCon}
+/-- the body of a spelling is read as the items -/
+theorem parseConstraints_spelled {mk : List Char → Except TErr (List Char)} {items : List TCon}
     {texts : List (List Char)} (n m : Nat) (hsp : Spelled items texts) (hne : items ≠ [])
     (hstar : StarAlone items) (hok : ∀ c ∈ items, ConOk mk c)
-    (hst : items = [.star] → n = 0 → m = 0) :
-    constraintTexts (bars n ++ join ['|'] texts ++ bars m) = .ok texts := by
-  have hprops := spelled_props hsp hok
-  have htne := spelled_ne_nil hsp hne
-  by_cases hn : n = 0
-  · subst hn
-    rcases hstar with hs | hs
-    · -- the lone star, written `*`
-      have hm := hst hs rfl
-      subst hm; subst hs
-      rw [spelled_star hsp]; rfl
-    · -- no star: the first text does not start with `*`
-      apply constraintTexts_body 0 m htne hprops
+    (ha : ∀ t ∈ texts, isAsciiRepr t = true) :
+    parseConstraints mk (bars n ++ join ['|'] texts ++ bars m) = .ok items := by
+  rcases hstar with hs | hs
+  · -- the lone star
+    subst hs
+    rw [spelled_star hsp]
+    simp only [parseConstraints, join, constraintBody_star]
+    rfl
+  · -- no star: the first text does not start with `*`
+    have hprops := spelled_props hsp hok
+    have htne := spelled_ne_nil hsp hne
+    have hhead : startsWith (join ['|'] texts) ['*'] = false := by
       cases hsp with
       | nil => exact absurd rfl hne
       | @cons c t cs ts h1 h2 =>
@@ -359,10 +360,9 @@ theorem constraintTexts_spelled {mk : List Char → Except TErr (List Char)} {it
         obtain ⟨rest, hrest⟩ := join_cons_cons ['|'] x xs ts
         have : ('*' == x) = false := by
           simp only [beq_eq_false_iff_ne, ne_eq]; exact fun e => hxs e.symm
-        simp [bars, hrest, startsWith_cons_cons, this]
-  · apply constraintTexts_body n m htne hprops
-    obtain ⟨k, rfl⟩ := Nat.exists_eq_succ_of_ne_zero hn
-    simp [bars, List.replicate, startsWith_cons_cons]
+        simp [hrest, startsWith_cons_cons, this]
+    simp only [parseConstraints, constraintBody_texts n m htne hprops hhead,
+      conLoop_spelled hsp hok hs ha]
 
 /-- (c)+(d) EXACTNESS: for a registered scheme, a non-empty list of acceptable constraints
 that is a lone star or has no star, every spelling `t` of the expression (whitespace anywhere,
@@ -373,7 +373,7 @@ theorem fromString_exact (mkVer : MkVer) (e : Expr) (vc : String) (t : List Char
     (hok : ∀ c ∈ e.items, ConOk (mkVer vc) c) (hr : Renders e t)
     (ha : isAsciiRepr (removeSpaces t) = true) :
     fromString mkVer t = .ok (e.scheme, constraintsOf e) := by
-  obtain ⟨u, s, texts, n, m, hu, hs, hsp, hst, heq⟩ := hr
+  obtain ⟨u, s, texts, n, m, hu, hs, hsp, heq⟩ := hr
   have heq' : removeSpaces t = u ++ ':' :: (s ++ '/' :: (bars n ++ join ['|'] texts ++ bars m)) := by
     rw [heq]; simp [List.append_assoc]
   have hcolon : ':' ∉ u := not_mem_of_lower (by decide) (by rw [hu]; decide)
@@ -389,11 +389,8 @@ theorem fromString_exact (mkVer : MkVer) (e : Expr) (vc : String) (t : List Char
     rw [heq']
     have := mem_join_of_mem (sep := ['|']) hp hc
     simp [this]
-  have hloop := conLoop_spelled hsp hok hascii
-  have htexts := constraintTexts_spelled (mk := mkVer vc) n m hsp hne hstar hok hst
-  simp only [fromString, fromStringItems, hhead, parseConstraints, htexts, hloop,
-    mixedStar_of_starAlone hstar, constraintsOf]
-  rfl
+  have hparse := parseConstraints_spelled (mk := mkVer vc) n m hsp hne hstar hok hascii
+  simp only [fromString, fromStringItems, hhead, hparse, constraintsOf]
 
 /-- (C13) two spellings of one expression are read the same: the result does not depend on
 the presentation -/
@@ -431,7 +428,7 @@ theorem renders_toString {mk : List Char → Except TErr (List Char)} {scheme : 
     {vc : String} {items : List TCon} (hreg : Registered scheme vc)
     (hok : ∀ c ∈ items, ConOk mk c) : Renders ⟨scheme, items⟩ (toString scheme items) := by
   refine ⟨['v', 'e', 'r', 's'], scheme, items.map conStr, 0, 0, rfl, (registered_plain hreg).1,
-    spelled_map_conStr items, fun _ _ => rfl, ?_⟩
+    spelled_map_conStr items, ?_⟩
   have hs : scheme.all (fun c => !isSpace c) = true := by
     rw [List.all_eq_true]; intro c hc
     have := (List.all_eq_true.mp (registered_plain hreg).2) c hc
@@ -452,7 +449,6 @@ theorem fromString_toString (mkVer : MkVer) (scheme : List Char) (vc : String)
     (ha : isAsciiRepr (toString scheme items) = true) :
     fromString mkVer (toString scheme items) = .ok (scheme, items) := by
   have hr := renders_toString hreg hok
-  obtain ⟨_, _, _, _, _, _, _, _, _, heq⟩ := id hr
   have hns : removeSpaces (toString scheme items) = toString scheme items := by
     have := noSpace_removeSpaces (toString scheme items)
     -- the canonical text has no whitespace: shown inside `renders_toString`; recover it here
@@ -575,36 +571,23 @@ theorem fromString_case_eq (mkVer : MkVer) {u u' s s' : List Char} (c : List Cha
 theorem removeSpaces_bars (n : Nat) : removeSpaces (bars n) = bars n :=
   removeSpaces_of_noSpace (bars_noSpace n)
 
-/-- stray bars around a constraint text that is not empty and does not start with the star -/
-theorem constraintTexts_bars (c : List Char) (n m : Nat) (hc : removeSpaces c ≠ [])
-    (hstar : startsWith (removeSpaces c) ['*'] = false) :
-    constraintTexts (bars n ++ c ++ bars m) = constraintTexts c := by
-  obtain ⟨x, xs, hx⟩ := List.exists_cons_of_ne_nil hc
-  have hx' : ('*' == x) = false := by
-    rw [hx] at hstar; simpa [startsWith_cons_cons] using hstar
+/-- stray bars around the text of the constraints never matter -/
+theorem constraintBody_bars (c : List Char) (n m : Nat) :
+    constraintBody (bars n ++ c ++ bars m) = constraintBody c := by
   have e : removeSpaces (bars n ++ c ++ bars m) = bars n ++ removeSpaces c ++ bars m := by
     rw [removeSpaces_append, removeSpaces_append, removeSpaces_bars, removeSpaces_bars]
-  have hne : (bars n ++ removeSpaces c ++ bars m).isEmpty = false := by
-    rw [hx]; cases n <;> simp [bars, List.replicate]
-  have hst : startsWith (bars n ++ removeSpaces c ++ bars m) ['*'] = false := by
-    rw [hx]
-    cases n with
-    | zero => simp [bars, startsWith_cons_cons, hx']
-    | succ k => simp [bars, List.replicate, startsWith_cons_cons]
-  have hne2 : (removeSpaces c).isEmpty = false := by rw [hx]; rfl
-  unfold constraintTexts
-  simp only [e, hne, hst, hne2, hstar, Bool.false_eq_true, ↓reduceIte,
-    stripSet_pad _ (bars_contains n) (bars_contains m)]
+  unfold constraintBody
+  simp only [e, stripSet_pad _ (bars_contains n) (bars_contains m)]
 
 theorem bars_plain (n : Nat) : ∀ c ∈ bars n, reprPlain c = true ∧ c ≠ '\'' ∧ c ≠ '"' := by
   intro c hc
   have := List.eq_of_mem_replicate hc
   subst this; decide
 
-/-- (d3) STRAY BARS before and after the constraints (outside the star case) -/
+/-- (d3) STRAY BARS before and after the constraints never matter (FIXED CODE: also around
+the star) -/
 theorem fromString_bars (mkVer : MkVer) (u s c : List Char) (n m : Nat) (hu : ':' ∉ u)
-    (hs : '/' ∉ s) (hc : removeSpaces c ≠ [])
-    (hstar : startsWith (removeSpaces c) ['*'] = false) :
+    (hs : '/' ∉ s) :
     fromString mkVer (u ++ ':' :: (s ++ '/' :: (bars n ++ c ++ bars m))) =
       fromString mkVer (u ++ ':' :: (s ++ '/' :: c)) := by
   have hitems : fromStringItems mkVer (u ++ ':' :: (s ++ '/' :: (bars n ++ c ++ bars m))) =
@@ -623,8 +606,7 @@ theorem fromString_bars (mkVer : MkVer) (u s c : List Char) (n m : Nat) (hu : ':
         parseConstraints mk (removeSpaces c) := by
       intro mk
       unfold parseConstraints
-      rw [constraintTexts_bars _ n m (by rw [removeSpaces_idem]; exact hc)
-        (by rw [removeSpaces_idem]; exact hstar)]
+      rw [constraintBody_bars _ n m]
     by_cases hA : isAsciiRepr
         (removeSpaces u ++ ':' :: (removeSpaces s ++ '/' :: removeSpaces c)) = true
     · by_cases hU : lower (removeSpaces u) = ['v', 'e', 'r', 's']
@@ -716,13 +698,35 @@ theorem conLoop_error {mk : List Char → Except TErr (List Char)} {ts : List (L
     · rename_i e' hc
       cases h; exact conFromString_error hc
     · split at h
-      · rename_i e' hl
-        cases h; exact ih hl
-      · cases h
+      · cases h; exact .inl rfl
+      · split at h
+        · rename_i e' hl
+          cases h; exact ih hl
+        · cases h
 
-theorem constraintTexts_error {c : List Char} {e : TErr} (h : constraintTexts c = .error e) :
+/-- the loop returns no star -/
+theorem conLoop_noStar {mk : List Char → Except TErr (List Char)} {ts : List (List Char)}
+    {items : List TCon} (h : conLoop mk ts = .ok items) :
+    items.all (fun c => !c.isStar) = true := by
+  induction ts generalizing items with
+  | nil => cases h; rfl
+  | cons p ps ih =>
+    simp only [conLoop] at h
+    split at h
+    · cases h
+    · split at h
+      · cases h
+      · rename_i c _ hc
+        split at h
+        · cases h
+        · rename_i cs hl
+          cases h
+          simp only [List.all_cons, ih hl, Bool.and_true]
+          simpa using hc
+
+theorem constraintBody_error {c : List Char} {e : TErr} (h : constraintBody c = .error e) :
     e = .ValueError := by
-  simp only [constraintTexts] at h
+  simp only [constraintBody] at h
   split at h
   · cases h; rfl
   · split at h
@@ -754,8 +758,30 @@ theorem header_error {t : List Char} {e : TErr} (h : header t = .error e) : e = 
   · cases h; rfl
   · exact headerCore_error h
 
-/-- (e) up to the end of the loop, `from_string` only raises `ValueError` or what the version
-class raised (`InvalidVersion` for a lawful version class) -/
+theorem parseConstraints_error {mk : List Char → Except TErr (List Char)} {c : List Char}
+    {e : TErr} (h : parseConstraints mk c = .error e) :
+    e = .ValueError ∨ ∃ v, mk v = .error e := by
+  simp only [parseConstraints] at h
+  split at h
+  · rename_i e' hc
+    cases h; exact .inl (constraintBody_error hc)
+  · split at h
+    · rename_i e' hc
+      cases h; exact conFromString_error hc
+    · cases h
+  · exact conLoop_error h
+
+/-- what `parseConstraints` returns is a lone star or a list without star -/
+theorem parseConstraints_starAlone {mk : List Char → Except TErr (List Char)} {c : List Char}
+    {items : List TCon} (h : parseConstraints mk c = .ok items) : StarAlone items := by
+  simp only [parseConstraints] at h
+  split at h
+  · cases h
+  · have hstar : conFromString mk ['*'] = .ok .star := rfl
+    rw [hstar] at h
+    cases h; exact .inl rfl
+  · exact .inr (conLoop_noStar h)
+
 theorem fromStringItems_declared {mkVer : MkVer} {t : List Char} {e : TErr}
     (h : fromStringItems mkVer t = .error e) :
     e = .ValueError ∨ ∃ vc v, mkVer vc v = .error e := by
@@ -767,78 +793,142 @@ theorem fromStringItems_declared {mkVer : MkVer} {t : List Char} {e : TErr}
     split at h
     · rename_i e' hp
       cases h
-      simp only [parseConstraints] at hp
-      split at hp
-      · rename_i e'' hc
-        cases hp; exact .inl (constraintTexts_error hc)
-      · rcases conLoop_error hp with h1 | ⟨v, hv⟩
-        · exact .inl h1
-        · exact .inr ⟨vc, v, hv⟩
+      rcases parseConstraints_error hp with h1 | ⟨v, hv⟩
+      · exact .inl h1
+      · exact .inr ⟨vc, v, hv⟩
     · cases h
 
-/-- (e) every error of `fromString`: a `ValueError`, an error of the version class, or the
-`TypeError` of `list.sort()` on a star next to a versioned constraint -/
-theorem fromString_error_cases {mkVer : MkVer} {t : List Char} {e : TErr}
+/-- (e) DECLARED ERRORS (C16), for every text: `from_string` returns, or raises `ValueError`,
+or raises what the version class raised (`InvalidVersion` for a lawful version class) -/
+theorem fromString_declared {mkVer : MkVer} {t : List Char} {e : TErr}
     (h : fromString mkVer t = .error e) :
-    e = .ValueError ∨ (∃ vc v, mkVer vc v = .error e) ∨
-      (e = .TypeError ∧ starMixedInput mkVer t = true) := by
-  simp only [fromString] at h
-  split at h
-  · rename_i e' hi
-    cases h
-    rcases fromStringItems_declared hi with h1 | h1
-    · exact .inl h1
-    · exact .inr (.inl h1)
-  · rename_i scheme items hi
-    split at h
-    · rename_i hm
-      cases h
-      exact .inr (.inr ⟨rfl, by simp only [starMixedInput, hi, hm]⟩)
-    · cases h
+    e = .ValueError ∨ ∃ vc v, mkVer vc v = .error e :=
+  fromStringItems_declared h
 
-/-- (e) DECLARED ERRORS, partial: outside the region `starMixedInput` (a star next to a
-versioned constraint in a list that otherwise parses), `from_string` only raises `ValueError`
-or what the version class raised -/
-theorem fromString_declared_partial {mkVer : MkVer} {t : List Char} {e : TErr}
-    (hreg : starMixedInput mkVer t = false) (h : fromString mkVer t = .error e) :
-    e = .ValueError ∨ ∃ vc v, mkVer vc v = .error e := by
-  rcases fromString_error_cases h with h1 | h1 | ⟨_, h2⟩
-  · exact .inl h1
-  · exact .inr h1
-  · rw [hreg] at h2; cases h2
-
-/-- with a version class that only raises declared errors, so does `from_string` (outside the
-region) -/
-theorem fromString_declared_partial' {mkVer : MkVer} {t : List Char} {e : TErr}
+/-- with a version class that only raises declared errors, so does `from_string` -/
+theorem fromString_declared' {mkVer : MkVer} {t : List Char} {e : TErr}
     (hmk : ∀ vc v e, mkVer vc v = .error e → e.declared = true)
-    (hreg : starMixedInput mkVer t = false) (h : fromString mkVer t = .error e) :
-    e.declared = true := by
-  rcases fromString_declared_partial hreg h with h1 | ⟨vc, v, hv⟩
+    (h : fromString mkVer t = .error e) : e.declared = true := by
+  rcases fromString_declared h with h1 | ⟨vc, v, hv⟩
   · subst h1; rfl
   · exact hmk vc v e hv
+
+/-- (e) the result is a lone star or has no star: `parsed_constraints.sort()` never compares
+`None` with a version, no `TypeError` can come from the sort (FIXED CODE) -/
+theorem fromString_starAlone {mkVer : MkVer} {t : List Char} {scheme : List Char}
+    {items : List TCon} (h : fromString mkVer t = .ok (scheme, items)) : StarAlone items := by
+  simp only [fromString, fromStringItems] at h
+  split at h
+  · cases h
+  · split at h
+    · cases h
+    · rename_i items' hp
+      cases h
+      exact parseConstraints_starAlone hp
+
+/-! ### (d3) trailing bars, for every text -/
+
+/-- a text whose header yields no constraints text is a ValueError -/
+theorem fromString_of_no_constraints (mkVer : MkVer) {t : List Char}
+    (hnil : ∀ r, headerCore (removeSpaces t) = .ok r → r.2.2 = []) :
+    fromString mkVer t = .error .ValueError := by
+  have hh : ∀ e, header t = .error e → e = .ValueError := fun e => header_error
+  simp only [fromString, fromStringItems]
+  cases hd : header t with
+  | error e => rw [hh e hd]
+  | ok r =>
+    obtain ⟨sch, vc, c⟩ := r
+    rw [header_eq] at hd
+    split at hd
+    · cases hd
+    · have : c = [] := hnil _ hd
+      subst this
+      rfl
+
+theorem headerCore_nil_of_noColon {w : List Char} (h : ':' ∉ w) :
+    ∀ r, headerCore w = .ok r → r.2.2 = [] := by
+  intro r hr
+  simp only [headerCore, partitionChar_of_not_mem h] at hr
+  have hp : partitionChar '/' [] = ([], [], []) := rfl
+  simp only [hp] at hr
+  split at hr
+  · cases hr
+  · split at hr
+    · cases hr
+    · split at hr
+      · cases hr
+      · split at hr
+        · cases hr
+        · cases hr; rfl
+
+theorem headerCore_nil_of_noSlash {a b : List Char} (ha : ':' ∉ a) (hb : '/' ∉ b) :
+    ∀ r, headerCore (a ++ ':' :: b) = .ok r → r.2.2 = [] := by
+  intro r hr
+  simp only [headerCore, partitionChar_append _ ha, partitionChar_of_not_mem hb] at hr
+  split at hr
+  · cases hr
+  · split at hr
+    · cases hr
+    · split at hr
+      · cases hr
+      · split at hr
+        · cases hr
+        · cases hr; rfl
+
+theorem not_mem_append_bars {d : Char} (hd : d ≠ '|') {w : List Char} (h : d ∉ w) (m : Nat) :
+    d ∉ w ++ bars m := by
+  intro hm
+  rcases List.mem_append.mp hm with h1 | h1
+  · exact h h1
+  · exact hd (List.eq_of_mem_replicate h1)
+
+/-- (d3) TRAILING BARS never matter, for EVERY text -/
+theorem fromString_trailing_bars (mkVer : MkVer) (t : List Char) (m : Nat) :
+    fromString mkVer (t ++ bars m) = fromString mkVer t := by
+  have e1 : fromString mkVer (t ++ bars m) = fromString mkVer (removeSpaces t ++ bars m) :=
+    fromString_spaces mkVer (by
+      rw [removeSpaces_append, removeSpaces_append, removeSpaces_idem])
+  rw [e1, ← fromString_removeSpaces mkVer t]
+  have hw := noSpace_removeSpaces t
+  generalize removeSpaces t = w at hw
+  have hwb : removeSpaces (w ++ bars m) = w ++ bars m := by
+    rw [removeSpaces_append, removeSpaces_of_noSpace hw, removeSpaces_bars]
+  by_cases hc : ':' ∈ w
+  · obtain ⟨a, b, rfl, ha⟩ := List.eq_append_cons_of_mem hc
+    by_cases hs : '/' ∈ b
+    · obtain ⟨sc, c, rfl, hsc⟩ := List.eq_append_cons_of_mem hs
+      have := fromString_bars mkVer a sc c 0 m ha hsc
+      simpa [bars, List.append_assoc] using this
+    · rw [fromString_of_no_constraints mkVer (t := a ++ ':' :: b ++ bars m),
+        fromString_of_no_constraints mkVer (t := a ++ ':' :: b)]
+      · rw [removeSpaces_of_noSpace hw]; exact headerCore_nil_of_noSlash ha hs
+      · rw [hwb]
+        have : a ++ ':' :: b ++ bars m = a ++ ':' :: (b ++ bars m) := by simp
+        rw [this]
+        exact headerCore_nil_of_noSlash ha (not_mem_append_bars (by decide) hs m)
+  · rw [fromString_of_no_constraints mkVer (t := w ++ bars m),
+      fromString_of_no_constraints mkVer (t := w)]
+    · rw [removeSpaces_of_noSpace hw]; exact headerCore_nil_of_noColon hc
+    · rw [hwb]; exact headerCore_nil_of_noColon (not_mem_append_bars (by decide) hc m)
 
 /-- the accept-everything version class -/
 def stubMkVer : MkVer := fun _ v => .ok v
 
-/-- the hypothesis of the partial theorem is satisfiable -/
-example : starMixedInput stubMkVer "vers:npm/>=1.0|<2.0".toList = false := by decide
+/-- FIXED CODE: the star with stray bars is the star range; a star inside a list, a second
+star, text after the star are ValueErrors -/
+theorem fromString_star_witnesses :
+    fromString stubMkVer "vers:npm/*|".toList = .ok ("npm".toList, [.star]) ∧
+    fromString stubMkVer "vers:npm/|*".toList = .ok ("npm".toList, [.star]) ∧
+    fromString stubMkVer "vers:npm/|*|".toList = .ok ("npm".toList, [.star]) ∧
+    fromString stubMkVer "vers:npm/1.0|*".toList = .error .ValueError ∧
+    fromString stubMkVer "vers:npm/|*|*".toList = .error .ValueError ∧
+    fromString stubMkVer "vers:npm/1.0|*junk".toList = .error .ValueError ∧
+    fromString stubMkVer "vers:npm/|".toList = .error .ValueError :=
+  ⟨by rfl, by rfl, by rfl, by rfl, by rfl, by rfl, by rfl⟩
 
-/-- (e) DEFECT of the code: `vers:npm/1.0|*` — the star is accepted by the loop and
-`parsed_constraints.sort()` then compares `None` with a version: `TypeError` escapes -/
-theorem fromString_declared_counterexample :
-    fromString stubMkVer "vers:npm/1.0|*".toList = .error .TypeError := by rfl
-
-/-- two stars reach the sort and are accepted: `vers:npm/|*|*` is the range `*|*` -/
-theorem fromString_two_stars :
-    fromString stubMkVer "vers:npm/|*|*".toList = .ok ("npm".toList, [.star, .star]) := by rfl
-
-/-- the star test comes before `strip("|")`: `*|` is rejected, `|*` is the star -/
-theorem fromString_star_bar :
-    fromString stubMkVer "vers:npm/*|".toList = .error .ValueError ∧
-    fromString stubMkVer "vers:npm/|*".toList = .ok ("npm".toList, [.star]) := ⟨by rfl, by rfl⟩
-
-/-- DEFECT (registry): the scheme of `AlpineLinuxVersionRange` is unknown to `from_string` -/
-theorem fromString_alpine_unknown :
-    fromString stubMkVer "vers:alpine/1.0".toList = .error .ValueError := by rfl
+/-- FIXED CODE: `alpine` is a known scheme -/
+theorem fromString_alpine :
+    fromString stubMkVer "vers:alpine/1.0".toList =
+      .ok ("alpine".toList, [.mk .eq "1.0".toList]) := by rfl
 
 end Univers.Text.Vers
